@@ -312,6 +312,21 @@ impl<'a> Exec<'a> {
                                     return;
                                 }
                             }
+                            // add_n with weight 0 is an add like any other: it returns the current
+                            // estimate and changes nothing (every seventh ingest, on another key)
+                            if (*key ^ self.step as u64) % 7 == 0 {
+                                if let AnyNode::Cms(c) = &mut nodes[*node] {
+                                    let k0 = u[(self.step + 1) % u.len()];
+                                    let before0 = c.query_point(k0);
+                                    let ret0 = c.add_n(k0, 0);
+                                    let after0 = c.query_point(k0);
+                                    self.stats.probe("zero_weight_add");
+                                    if ret0 != after0 || after0 != before0 {
+                                        self.viol.push(v("C02", "cms/add-return".into(), self.step, format!("add_n({}, 0) returned {}, query_point before / after is {} / {}", k0, ret0, before0, after0)));
+                                        return;
+                                    }
+                                }
+                            }
                         }
                         Err(()) => {
                             self.stats.sig(2);
